@@ -6,7 +6,7 @@ import core
 from core import cq, fr, fl, Raw, N, Some, C, dy
 
 ID = 'C20'
-GEN = ['kernels']
+GEN = ['kernels', 'loaders']
 PROPS = 'Props/C20.v'
 MODEL_VO = ['Model/Loader.v']
 SHARD = 60
